@@ -292,6 +292,241 @@ fn ob_c10_seq_len4_inner_left(ks: [u8; 4], ms: [usize; 4]) {
 }
 
 // ---------------------------------------------------------------------------------------------
+// C10: flat concatenations of ANY length, by induction over the real SeparatedTerm conjunction.
+//
+// `rep` relates the term (t, v) the real code has computed for a non-empty leaf sequence to ghost
+// facts about that sequence: fc = its first leaf is a boundary (separator or tree wildcard),
+// lc = class of its last leaf (0 text, 1 separator, 2 tree wildcard), c = its true component count
+// for the chosen tree-wildcard multiplicities. base: every single leaf satisfies rep; step: rep is
+// preserved by the REAL conjunction with the REAL term of any admissible next leaf; final: rep implies
+// that the REAL finalize contains c. Concatenation::fold is the left fold of that conjunction (T3),
+// so the three obligations together cover every flat concatenation of leaves, of every length.
+// ---------------------------------------------------------------------------------------------
+
+const CMAX: usize = 1usize << 40;
+
+// every well-formed depth variance (kinds as in the `natural` unit: 0 Invariant, 1 Unbounded, 2 Lower,
+// 3 Upper, 4 Both), bounds up to 2^40
+fn flat_valid(vk: u8, n: usize, e: usize) -> bool {
+    vk <= 4 && vnat::valid_tv(vk, n, e) && n <= CMAX && e <= CMAX
+}
+fn flat_tv(vk: u8, n: usize, e: usize) -> TV {
+    vnat::mk_tv(vk, n, e)
+}
+// what finalize will still add to the count (Open: one component is pending) or what a trailing
+// separator still owes (Closed by a separator)
+fn pending(t: Termination, lc: u8) -> i128 {
+    match t {
+        Termination::Open => -1,
+        Termination::Closed if lc == 1 => 1,
+        _ => 0,
+    }
+}
+fn rep(t: Termination, v: &TV, fc: bool, lc: u8, c: u128) -> bool {
+    if matches!(t, Termination::Coalescent) {
+        // only a lone tree wildcard
+        return fc && lc == 2 && v.is_unbounded();
+    }
+    let left_open = matches!(t, Termination::Open | Termination::Last);
+    let right_open = matches!(t, Termination::Open | Termination::First);
+    if left_open == fc || right_open != (lc == 0) {
+        return false;
+    }
+    // facts about real sequences: one that begins or ends with text has a component; one that ends in
+    // a tree wildcard has no upper bound
+    if (lc == 0 || !fc) && c == 0 {
+        return false;
+    }
+    if lc == 2 && v.has_upper_bound() {
+        return false;
+    }
+    // the count, corrected by what is pending, is a depth the variance denotes
+    let x = c as i128 + pending(t, lc);
+    x >= 0 && mem(v, x as u128)
+}
+
+//@ob C10.flat.base
+//@ props: C10
+//@ kind: complete
+//@ fns: src/token/mod.rs::LeafKind::term src/token/mod.rs::Separator::term<Depth> src/token/mod.rs::Wildcard::term<Depth> src/token/mod.rs::Literal::term<Depth> src/token/mod.rs::Class::term<Depth>
+//@ pre: any single leaf (eight kinds), any multiplicity m <= 2^20 of a tree wildcard
+//@ post: the REAL leaf term satisfies rep with fc = the leaf is a boundary, lc = its class, c = its own count (text 1, separator 0, tree wildcard m)
+fn ob_c10_flat_base(k: u8, m: usize) {
+    vassume!(k < KINDS && m <= KMAX);
+    let SeparatedTerm(t, v) = real_leaf_term(k);
+    let class = class_of(k);
+    let c: u128 = match class {
+        0 => 1,
+        1 => 0,
+        _ => m as u128,
+    };
+    vcover!(k == 5);
+    vcover!(k == 6 && m == 2);
+    assert!(rep(t, &v, class != 0, class, c), "C10 every leaf term satisfies the representation relation");
+}
+
+//@ob C10.flat.step
+//@ props: C10
+//@ kind: complete
+//@ fns: src/token/variance/invariant/term.rs::SeparatedTerm::conjunction src/token/variance/invariant/term.rs::Termination::conjunction src/token/variance/invariant/mod.rs::SeparatedTerm::finalize src/token/variance/mod.rs::TokenVariance::conjunction
+//@ pre: ANY term (t, v) with ghost (fc, lc, c) satisfying rep (counts up to 2^40), any next leaf that may follow a leaf of class lc (no two boundaries adjacent, T6; a rooted tree wildcard only comes first), any multiplicity m <= 2^20
+//@ post: the REAL conjunction of (t, v) with the REAL term of the next leaf satisfies rep for the extended sequence: fc unchanged, lc = class of the new leaf, c + [a new text run starts] + [m for a tree wildcard] -- the inductive step for flat concatenations of any length
+fn ob_c10_flat_step(t: u8, vk: u8, n: usize, e: usize, fc: bool, lc: u8, c: usize, k: u8, m: usize) {
+    vassume!(t <= 4 && flat_valid(vk, n, e) && lc <= 2 && c <= CMAX + CMAX && k < KINDS - 1 && m <= KMAX);
+    let (termination, v) = (mk_termination(t), flat_tv(vk, n, e));
+    vassume!(rep(termination, &v, fc, lc, c as u128));
+    let class = class_of(k);
+    vassume!(lc == 0 || class == 0); // no two boundaries adjacent
+    vcover!(t == 4 && class == 0);
+    vcover!(vk == 2 && t == 3 && lc == 2 && class == 0);
+    vcover!(vk == 0 && t == 1 && class == 2);
+    vcover!(vk == 2 && t == 0 && class == 1);
+    let SeparatedTerm(t2, v2) = cj(SeparatedTerm(termination, v), real_leaf_term(k));
+    let c2 = c as u128 + if class == 0 && lc != 0 { 1 } else { 0 } + if class == 2 { m as u128 } else { 0 };
+    assert!(rep(t2, &v2, fc, class, c2), "C10 the representation relation is preserved by appending a leaf");
+}
+
+//@ob C10.flat.final
+//@ props: C10
+//@ kind: complete
+//@ fns: src/token/variance/invariant/mod.rs::SeparatedTerm::finalize
+//@ pre: ANY term with ghost facts satisfying rep for a sequence that is a canonical path expression (it does not end in a separator, unless it is the lone root separator)
+//@ post: the REAL finalize contains the true component count c -- with base and step: the reported depth of every flat concatenation of leaves, of any length, contains the depth of every match
+fn ob_c10_flat_final(t: u8, vk: u8, n: usize, e: usize, fc: bool, lc: u8, c: usize) {
+    vassume!(t <= 4 && flat_valid(vk, n, e) && lc <= 2 && c <= CMAX + CMAX);
+    let (termination, v) = (mk_termination(t), flat_tv(vk, n, e));
+    vassume!(rep(termination, &v, fc, lc, c as u128));
+    // no trailing separator, except the root alone: (Closed, Invariant(1)) with c == 0
+    vassume!(lc != 1 || (t == 3 && vk == 0 && n == 1 && c == 0));
+    vcover!(t == 3 && vk == 2);
+    vcover!(t == 0 && vk == 2);
+    vcover!(t == 3 && vk == 0 && n == 1);
+    let out = SeparatedTerm(termination, v).finalize();
+    assert!(mem(&out, c as u128), "C10 the finalised depth of a flat concatenation contains its component count");
+}
+
+// region of the known finding C10.bracket-before-tree in ghost terms (see DESIGN 10.3)
+fn region_join(t1: u8, _vk1: u8, lc1: u8, t2: u8, vk2: u8, f2: u8, _lc2: u8) -> bool {
+    // R is a text-first bracket that was closed on the right by coalescing with a tree wildcard
+    // (Last, variant): its first text run already carries its +1 ...
+    let r_bracket = f2 == 0 && vk2 != 0 && t2 == 2;
+    // ... and L cannot absorb it: L ends in text but is closed on the left (First)
+    let l_first_text = lc1 == 0 && t1 == 1;
+    // ... or L is closed on both sides by separators (`/x/`): the separator's debt cannot be repaid by
+    // a variant term
+    let l_closed_sep = lc1 == 1 && t1 == 3;
+    r_bracket && (l_first_text || l_closed_sep)
+}
+
+// the join, for a fixed left termination
+fn flat_join(t1: u8, vk1: u8, n1: usize, e1: usize, fc1: bool, lc1: u8, c1: usize, t2: u8, vk2: u8, n2: usize, e2: usize, f2: u8, lc2: u8, c2: usize) {
+    vassume!(t1 <= 4 && flat_valid(vk1, n1, e1) && lc1 <= 2 && c1 <= CMAX + CMAX);
+    vassume!(t2 <= 4 && flat_valid(vk2, n2, e2) && f2 <= 2 && lc2 <= 2 && c2 <= CMAX + CMAX);
+    let (ta, va) = (mk_termination(t1), flat_tv(vk1, n1, e1));
+    let (tb, vb) = (mk_termination(t2), flat_tv(vk2, n2, e2));
+    vassume!(rep(ta, &va, fc1, lc1, c1 as u128) && rep(tb, &vb, f2 != 0, lc2, c2 as u128));
+    vassume!(lc1 == 0 || f2 == 0); // no two boundaries adjacent at the seam
+    vassume!(t2 != 4 || f2 == 2); // a lone tree wildcard begins with a tree wildcard
+    vcover!(t2 == 0);
+    vcover!(vk2 == 2 && lc2 == 2);
+    let SeparatedTerm(t, v) = cj(SeparatedTerm(ta, va), SeparatedTerm(tb, vb));
+    let shared = lc1 == 0 && f2 == 0;
+    vassume!(!shared || (c1 >= 1 && c2 >= 1));
+    let c = c1 as u128 + c2 as u128 - if shared { 1 } else { 0 };
+    assert!(rep(t, &v, fc1, lc2, c), "C10 the representation relation is preserved by joining two terms");
+}
+
+//@ob C10.flat.join.t0
+//@ props: C10
+//@ kind: complete
+//@ fns: src/token/variance/invariant/term.rs::SeparatedTerm::conjunction src/token/variance/invariant/term.rs::Termination::conjunction src/token/variance/invariant/mod.rs::SeparatedTerm::finalize src/token/variance/mod.rs::TokenVariance::conjunction
+//@ pre: ANY two terms L, R (every variance shape, bounds up to 2^40) with ghost facts satisfying rep, L with termination Open; no two boundaries adjacent at the seam
+//@ post: the REAL conjunction L x R satisfies rep for the joined sequence (count = cL + cR, minus one when a text run continues across the seam): brackets of any size and nesting keep the relation (split by the left termination only to parallelise the solver)
+fn ob_c10_flat_join_t0(vk1: u8, n1: usize, e1: usize, fc1: bool, lc1: u8, c1: usize, t2: u8, vk2: u8, n2: usize, e2: usize, f2: u8, lc2: u8, c2: usize) {
+    flat_join(0, vk1, n1, e1, fc1, lc1, c1, t2, vk2, n2, e2, f2, lc2, c2)
+}
+//@ob C10.flat.join.t1
+//@ props: C10
+//@ kind: complete
+//@ fns: src/token/variance/invariant/term.rs::SeparatedTerm::conjunction src/token/variance/invariant/term.rs::Termination::conjunction src/token/variance/invariant/mod.rs::SeparatedTerm::finalize src/token/variance/mod.rs::TokenVariance::conjunction
+//@ pre: ANY two terms L, R (every variance shape, bounds up to 2^40) with ghost facts satisfying rep, L with termination First; no two boundaries adjacent at the seam
+//@ post: the REAL conjunction L x R satisfies rep for the joined sequence (count = cL + cR, minus one when a text run continues across the seam): brackets of any size and nesting keep the relation (split by the left termination only to parallelise the solver)
+fn ob_c10_flat_join_t1(vk1: u8, n1: usize, e1: usize, fc1: bool, lc1: u8, c1: usize, t2: u8, vk2: u8, n2: usize, e2: usize, f2: u8, lc2: u8, c2: usize) {
+    flat_join(1, vk1, n1, e1, fc1, lc1, c1, t2, vk2, n2, e2, f2, lc2, c2)
+}
+//@ob C10.flat.join.t2
+//@ props: C10
+//@ kind: complete
+//@ fns: src/token/variance/invariant/term.rs::SeparatedTerm::conjunction src/token/variance/invariant/term.rs::Termination::conjunction src/token/variance/invariant/mod.rs::SeparatedTerm::finalize src/token/variance/mod.rs::TokenVariance::conjunction
+//@ pre: ANY two terms L, R (every variance shape, bounds up to 2^40) with ghost facts satisfying rep, L with termination Last; no two boundaries adjacent at the seam
+//@ post: the REAL conjunction L x R satisfies rep for the joined sequence (count = cL + cR, minus one when a text run continues across the seam): brackets of any size and nesting keep the relation (split by the left termination only to parallelise the solver)
+fn ob_c10_flat_join_t2(vk1: u8, n1: usize, e1: usize, fc1: bool, lc1: u8, c1: usize, t2: u8, vk2: u8, n2: usize, e2: usize, f2: u8, lc2: u8, c2: usize) {
+    flat_join(2, vk1, n1, e1, fc1, lc1, c1, t2, vk2, n2, e2, f2, lc2, c2)
+}
+//@ob C10.flat.join.t3
+//@ props: C10
+//@ kind: complete
+//@ fns: src/token/variance/invariant/term.rs::SeparatedTerm::conjunction src/token/variance/invariant/term.rs::Termination::conjunction src/token/variance/invariant/mod.rs::SeparatedTerm::finalize src/token/variance/mod.rs::TokenVariance::conjunction
+//@ pre: ANY two terms L, R (every variance shape, bounds up to 2^40) with ghost facts satisfying rep, L with termination Closed; no two boundaries adjacent at the seam
+//@ post: the REAL conjunction L x R satisfies rep for the joined sequence (count = cL + cR, minus one when a text run continues across the seam): brackets of any size and nesting keep the relation (split by the left termination only to parallelise the solver)
+fn ob_c10_flat_join_t3(vk1: u8, n1: usize, e1: usize, fc1: bool, lc1: u8, c1: usize, t2: u8, vk2: u8, n2: usize, e2: usize, f2: u8, lc2: u8, c2: usize) {
+    flat_join(3, vk1, n1, e1, fc1, lc1, c1, t2, vk2, n2, e2, f2, lc2, c2)
+}
+//@ob C10.flat.join.t4
+//@ props: C10
+//@ kind: complete
+//@ fns: src/token/variance/invariant/term.rs::SeparatedTerm::conjunction src/token/variance/invariant/term.rs::Termination::conjunction src/token/variance/invariant/mod.rs::SeparatedTerm::finalize src/token/variance/mod.rs::TokenVariance::conjunction
+//@ pre: ANY two terms L, R (every variance shape, bounds up to 2^40) with ghost facts satisfying rep, L with termination Coalescent; no two boundaries adjacent at the seam
+//@ post: the REAL conjunction L x R satisfies rep for the joined sequence (count = cL + cR, minus one when a text run continues across the seam): brackets of any size and nesting keep the relation (split by the left termination only to parallelise the solver)
+fn ob_c10_flat_join_t4(vk1: u8, n1: usize, e1: usize, fc1: bool, lc1: u8, c1: usize, t2: u8, vk2: u8, n2: usize, e2: usize, f2: u8, lc2: u8, c2: usize) {
+    flat_join(4, vk1, n1, e1, fc1, lc1, c1, t2, vk2, n2, e2, f2, lc2, c2)
+}
+fn region_c10_flat_join_t1(vk1: u8, _n1: usize, _e1: usize, _fc1: bool, lc1: u8, _c1: usize, t2: u8, vk2: u8, _n2: usize, _e2: usize, f2: u8, lc2: u8, _c2: usize) -> bool {
+    region_join(1, vk1, lc1, t2, vk2, f2, lc2)
+}
+fn region_c10_flat_join_t3(vk1: u8, _n1: usize, _e1: usize, _fc1: bool, lc1: u8, _c1: usize, t2: u8, vk2: u8, _n2: usize, _e2: usize, f2: u8, lc2: u8, _c2: usize) -> bool {
+    region_join(3, vk1, lc1, t2, vk2, f2, lc2)
+}
+
+//@ob C10.flat.product
+//@ props: C10
+//@ kind: bounded(repetition bounds enumerated: lower <= 3, upper <= 3 or open; 1 <= n <= 3 copies of the body; the body term and the per-copy counts symbolic)
+//@ fns: src/token/variance/invariant/term.rs::SeparatedTerm::product src/token/mod.rs::Repetition::finalize<Depth> src/token/variance/mod.rs::TokenVariance::product
+//@ pre: a body term (t, v) that satisfies rep for each of n copies (same edges, each copy with its own component count c_i: tree wildcards may match differently in every copy), copies may follow each other (no two boundaries adjacent), n admitted by the repetition range
+//@ post: the REAL Repetition::finalize (SeparatedTerm product) satisfies rep for the repeated sequence: same edges, count = sum of the c_i minus one for every seam where a text run continues -- so a repetition can take part in the induction like any other bracket
+fn ob_c10_flat_product(t: u8, vk: u8, a: usize, e: usize, fc: bool, lc: u8, lo: u8, hi: u8, n: u8, c1: usize, c2: usize, c3: usize) {
+    vassume!(t <= 3 && flat_valid(vk, a, e) && lc <= 2 && lo <= 3 && hi <= 4 && hi >= 1 && (hi == 4 || lo <= hi) && n >= 1 && n <= 3);
+    vassume!(c1 <= CMAX && c2 <= CMAX && c3 <= CMAX);
+    let (termination, v) = (mk_termination(t), flat_tv(vk, a, e));
+    vassume!(rep(termination, &v, fc, lc, c1 as u128));
+    vassume!(n < 2 || rep(termination, &v, fc, lc, c2 as u128));
+    vassume!(n < 3 || rep(termination, &v, fc, lc, c3 as u128));
+    vassume!(n == 1 || lc == 0 || !fc); // copies may follow each other
+    let upper = if hi == 4 { None } else { Some(hi as usize) };
+    vassume!(n >= lo && (hi == 4 || n <= hi));
+    let rep_branch = mk_repetition(lo as usize, upper);
+    vcover!(n == 3 && vk == 4);
+    vcover!(n == 2 && t == 0);
+    let out = variance::finalize::<Depth>(&rep_branch, Composition::Conjunctive(SeparatedTerm(termination, v)));
+    core::mem::forget(rep_branch);
+    let shared: u128 = if lc == 0 && !fc { 1 } else { 0 };
+    let total = match n {
+        1 => c1 as u128,
+        2 => c1 as u128 + c2 as u128 - shared,
+        _ => c1 as u128 + c2 as u128 + c3 as u128 - shared - shared,
+    };
+    match out {
+        Composition::Conjunctive(SeparatedTerm(t2, v2)) => {
+            assert!(rep(t2, &v2, fc, lc, total), "C10 the representation relation is preserved by repetition");
+        },
+        Composition::Disjunctive(d) => {
+            core::mem::forget(d);
+            assert!(false, "C10 product of a conjunctive term is conjunctive")
+        },
+    }
+}
+
+// ---------------------------------------------------------------------------------------------
 // C10: repetition at term level
 // ---------------------------------------------------------------------------------------------
 
@@ -581,25 +816,13 @@ fn literal_casing(n: u8, b1: u8, b2: u8, flag: bool) {
 
 //@ob C11.literal.casing.len1
 //@ props: C11 C05
-//@ kind: bounded(literals of one ASCII character; the case flag symbolic)
+//@ kind: bounded(literals of one ASCII character; the case flag symbolic -- two characters: no verdict in 1500 s since has_casing consults the Unicode case-mapping tables)
 //@ unwind: 14
 //@ fns: src/token/mod.rs::Literal::variance src/token/mod.rs::Literal::has_variant_casing src/lib.rs::StrExt::has_casing src/lib.rs::CharExt::has_casing
 //@ pre: any literal of one ASCII character, any case flag
 //@ post: the literal reports variant text <=> its case sensitivity differs from the platform's and it is a letter: a literal with casing under a case-insensitive flag on a case-sensitive platform is variant, everything else is invariant over its own text
 fn ob_c11_literal_casing_len1(b1: u8, flag: bool) {
     literal_casing(1, b1, 0, flag)
-}
-
-//@ob C11.literal.casing.len2
-//@ props: C11 C05
-//@ kind: bounded(literals of two ASCII characters; the case flag symbolic)
-//@ tier: thorough
-//@ unwind: 14
-//@ fns: src/token/mod.rs::Literal::variance src/token/mod.rs::Literal::has_variant_casing src/lib.rs::StrExt::has_casing src/lib.rs::CharExt::has_casing
-//@ pre: any literal of two ASCII characters, any case flag
-//@ post: as C11.literal.casing.len1, for the whole text
-fn ob_c11_literal_casing_len2(b1: u8, b2: u8, flag: bool) {
-    literal_casing(2, b1, b2, flag)
 }
 
 // ---------------------------------------------------------------------------------------------
